@@ -580,11 +580,57 @@ numbers.Number.register(SV)
 
 
 def _exp_term(l):
-    c = _const(l)
-    if c is not None and c == 0:
-        return ONE
-    t = EXP(l)
-    engine.axiom("EXP|" + l.sexpr(), t > 0)
+    """exp of a z3 Real term, normalised so that the homomorphism laws hold by construction:
+    exp(0)=1, exp(a+b)=exp(a)exp(b), exp(k*a)=exp(a)^k (integer k), exp(If(c,a,b))=If(c,exp(a),exp(b));
+    anything else is an application of the uninterpreted EXP with the axiom EXP(t) > 0."""
+    return _exp_norm(z3.simplify(l), 0)
+
+
+def _exp_norm(s, depth):
+    c = _const(s) if (z3.is_rational_value(s) or z3.is_int_value(s)) else None
+    if c is not None:
+        if c == 0:
+            return ONE
+        # float constants that are logs of small rationals (e.g. math.log(3) injected by funsor) are exact
+        try:
+            ev = math.exp(float(c))
+            for d in range(1, 13):
+                n = round(ev * d)
+                if 0 < n <= 4096 and abs(ev * d - n) < 1e-12 * max(1.0, ev * d):
+                    return z3.RealVal(n) / z3.RealVal(d) if d != 1 else z3.RealVal(n)
+        except OverflowError:
+            pass
+        t = EXP(s)
+        engine.axiom("EXP|" + s.sexpr(), t > 0)
+        if c > 0:
+            engine.axiom("EXP>1|" + s.sexpr(), t > 1)
+        else:
+            engine.axiom("EXP<1|" + s.sexpr(), t < 1)
+        return t
+    if depth < 12 and z3.is_app(s):
+        k = s.decl().kind()
+        if k == z3.Z3_OP_ITE:
+            return z3.If(s.arg(0), _exp_norm(s.arg(1), depth + 1), _exp_norm(s.arg(2), depth + 1))
+        if k == z3.Z3_OP_ADD:
+            r = None
+            for a in s.children():
+                e = _exp_norm(a, depth + 1)
+                r = e if r is None else r * e
+            return r
+        if k == z3.Z3_OP_UMINUS:
+            return 1 / _exp_norm(s.arg(0), depth + 1)
+        if k == z3.Z3_OP_MUL and s.num_args() == 2:
+            a, b = s.arg(0), s.arg(1)
+            ca = _const(a) if (z3.is_rational_value(a) or z3.is_int_value(a)) else None
+            if ca is not None and ca.denominator == 1 and abs(ca) <= 8:
+                e = _exp_norm(b, depth + 1)
+                n = abs(int(ca))
+                r = e
+                for _ in range(n - 1):
+                    r = r * e
+                return r if ca > 0 else 1 / r
+    t = EXP(s)
+    engine.axiom("EXP|" + s.sexpr(), t > 0)
     return t
 
 
